@@ -375,7 +375,7 @@ def dops(s: "Sel") -> List[Dict[str, Any]]:
              feat=("dct_plen", "ParamLengthInfoType.length_key_ref")),
         dict(kind="dtcdop", name="dtcs", dct=std(24), dtcs=[dict(name="d1", code=0x0101, level=2, text="first <dtc>"), dict(name="d2", code=0x0102)],
              feat=("dtc_dop", "DiagDataDictionarySpec.dtc_dops")),
-        dict(kind="dtcdop", name="dtcs2", dct=std(24), dtcs=[dict(name="e1", code=0x0201)], feat=("dtc_dop", "DiagDataDictionarySpec.dtc_dops")),
+        dict(kind="dtcdop", name="dtcs2", dct=std(24), dtcs=[dict(name="e1", code=0x0201), dict(name="e2", code=0x0202)], feat=("dtc_dop", "DiagDataDictionarySpec.dtc_dops")),
         dict(kind="struct", name="st_item", long_name="item", desc="an item", **(dict(byte_size=2) if s.on("struct_byte_size", "Structure.byte_size") else {}),
              params=[dict(t="VALUE", name="a", dop="u8", byte=0), dict(t="VALUE", name="b", dop="u8", byte=1, default="5")]),
         dict(kind="struct", name="st_other", params=[dict(t="VALUE", name="c", dop="u16le", byte=0)]),
@@ -543,7 +543,8 @@ def container_ks(s: "Sel") -> Dict[str, Any]:
         dops=[dict(name="ev_u8", dct=std(8))],
         msgs=[dict(kind="REQUEST", name="ev_rq", params=[cc("sid", 0x31, 0), dict(t="VALUE", name="rid", dop="ev_u8", byte=1)]),
               dict(kind="POS-RESPONSE", name="ev_pr", params=[cc("sid", 0x71, 0), dict(t="MATCHING-REQUEST-PARAM", name="rid", rq_byte=1, len=1, byte=1)])],
-        svcs=[dict(name="svc_ev", request="ev_rq", pos=["ev_pr"]), dict(ref=B + ".svc_min", feat=("diag_comm_ref", "DiagLayerRaw.diag_comms_raw<OdxLinkRef>"))],
+        svcs=[dict(name="svc_ev", request="ev_rq", pos=["ev_pr"]), dict(ref=B + ".svc_min", feat=("diag_comm_ref", "DiagLayerRaw.diag_comms_raw<OdxLinkRef>")),
+              dict(ref=B + ".svc_dyn_read", feat=("diag_comm_ref", "DiagLayerRaw.diag_comms_raw<OdxLinkRef>"))],
         variant_xml=s.opt("ev_patterns", "EcuVariantRaw.ecu_variant_patterns", ecu_variant_patterns(s)) +
         s.opt("dyn_spec_ecu", "EcuVariantRaw.dyn_defined_spec", dyn_defined_spec(B, "tab")) +
         s.opt("dv_ecu", "EcuVariantRaw.diag_variables_raw", diag_variables("ksecu", s, False, "svc_ev")),
@@ -758,6 +759,30 @@ def files(off: Iterable[str] = ()) -> Dict[str, str]:
     return out
 
 
+def mini_members(model_version: str) -> Dict[str, bytes]:
+    """A small database as ODX before 2.2 has it (no PROTOCOL layer -- odxtools needs an ODX 2.2 COMPARAM-SPEC for those): a container
+    with a base and an ECU variant, a COMPARAM-SUBSET document, and a document whose root is COMPARAM-SPEC carrying communication
+    parameters directly (ODX 2.0; the parser reads it as a comparam subset without CATEGORY)."""
+    s = Sel(all_features())
+    mb = dict(type="BASE-VARIANT", name="mb", long_name="base variant",
+              dops=[dict(name="m_u8", dct=std(8))],
+              msgs=[dict(kind="REQUEST", name="m_rq", params=[cc("sid", 0x22, 0), dict(t="VALUE", name="v", dop="m_u8", byte=1)]),
+                    dict(kind="POS-RESPONSE", name="m_pr", params=[cc("sid", 0x62, 0), dict(t="VALUE", name="r", dop="m_u8", byte=1)])],
+              svcs=[dict(name="m_svc", request="m_rq", pos=["m_pr"])],
+              comparams=[dict(id="KSCS.cp_simple", docref="KSCS", value="77"),
+                         dict(id="MINISPEC.cp_old", docref="MINISPEC", doctype="COMPARAM-SPEC", value="5")])
+    me = dict(type="ECU-VARIANT", name="me", long_name="ecu variant", parents=[dict(layer="mb", docref="MINI", doctype="CONTAINER")])
+    old_spec = comparam_subset(dict(name="MINISPEC", long_name="ODX 2.0 comparam spec", category=None,
+                                    comparams=[dict(name="cp_old", cptype="STANDARD", param_class="COM", usage="TESTER", dop="os_u8", default="1")],
+                                    dops=[dict(name="os_u8", dct=std(8))]))
+    old_spec = old_spec.replace("<COMPARAM-SUBSET ", "<COMPARAM-SPEC ").replace("</COMPARAM-SUBSET>", "</COMPARAM-SPEC>").replace(' CATEGORY="APPLICATION"', "")
+    docs = {"MINI.odx-d": container(dict(name="MINI", long_name="pre-2.2 container", layers=[mb, me])),
+            "KSCS.odx-cs": finish_cs(comparam_subset(subset(s)), s), "MINISPEC.odx-c": old_spec}
+    out: Dict[str, bytes] = {n: x.replace('<ODX MODEL-VERSION="2.2.0"', f'<ODX MODEL-VERSION="{model_version}"', 1).encode("utf-8") for n, x in docs.items()}
+    out["index.xml"] = index_xml("mini").encode("utf-8")
+    return out
+
+
 def aux_files() -> Dict[str, bytes]:
     """Auxiliary files referenced by PROG-CODE / LIBRARY elements (the loader requires them to exist)."""
     return {"code.java": b"class Code {}\n", "job.jar": b"PK-not-really-a-jar\n", "lib1.jar": b"PK-library\n"}
@@ -767,9 +792,11 @@ def index_xml(short_name: str = "kitchen_sink") -> str:
     return ('<?xml version="1.0" encoding="UTF-8"?>\n<CATALOG F-DTD-VERSION="ODX-2.2.0">' + T("SHORT-NAME", short_name) + "<ABLOCKS/></CATALOG>")
 
 
-def members(off: Iterable[str] = ()) -> Dict[str, bytes]:
-    """All members of the kitchen-sink PDX archive (ODX documents first, then auxiliary files, then index.xml)."""
-    out: Dict[str, bytes] = {n: x.encode("utf-8") for n, x in files(off).items()}
+def members(off: Iterable[str] = (), model_version: str = "2.2.0") -> Dict[str, bytes]:
+    """All members of the kitchen-sink PDX archive (ODX documents first, then auxiliary files, then index.xml).
+    model_version: value of the MODEL-VERSION attribute of every ODX document."""
+    out: Dict[str, bytes] = {n: x.replace('<ODX MODEL-VERSION="2.2.0"', f'<ODX MODEL-VERSION="{model_version}"', 1).encode("utf-8")
+                             for n, x in files(off).items()}
     out.update(aux_files())
     out["index.xml"] = index_xml().encode("utf-8")
     return out
